@@ -154,19 +154,87 @@ def launcher_rule(model, res):
 
 
 def wait_rule(model, res):
+    """Per `with Pool(...)` block: the async results are awaited inside the block, on every task, with wait().
+    Recognised shapes of an await: a comprehension or a `for` loop over a task collection (a name that receives
+    apply_async results by append / comprehension / list literal) calling a method on the element; a method called
+    directly on an apply_async result or on a name bound to one."""
     run = model.func("BacktestManager.run")
     n = 0
-    for c in ast.walk(run.node):
-        if isinstance(c, ast.ListComp) and isinstance(c.elt, ast.Call) and isinstance(c.elt.func, ast.Attribute) \
-                and ast.unparse(c.generators[0].iter) == "tasks":
+    for w in ast.walk(run.node):
+        if not (isinstance(w, ast.With) and any(isinstance(i.context_expr, ast.Call) and ast.unparse(i.context_expr.func).split(".")[-1] == "Pool"
+                                                for i in w.items)):
+            continue
+
+        def is_async(e):
+            return isinstance(e, ast.Call) and isinstance(e.func, ast.Attribute) and e.func.attr in ("apply_async", "map_async", "starmap_async")
+
+        singles, colls = set(), set()
+        changed = True
+        while changed:
+            changed = False
+            for x in ast.walk(w):
+                if isinstance(x, ast.Assign) and len(x.targets) == 1 and isinstance(x.targets[0], ast.Name):
+                    nm, v = x.targets[0].id, x.value
+                    if (is_async(v) or (isinstance(v, ast.Name) and v.id in singles)) and nm not in singles:
+                        singles.add(nm)
+                        changed = True
+                    if isinstance(v, (ast.ListComp, ast.GeneratorExp)) and (is_async(v.elt) or (isinstance(v.elt, ast.Name) and v.elt.id in singles)) \
+                            and nm not in colls:
+                        colls.add(nm)
+                        changed = True
+                    if isinstance(v, (ast.List, ast.Tuple)) and v.elts and all(is_async(e) or (isinstance(e, ast.Name) and e.id in singles) for e in v.elts) \
+                            and nm not in colls:
+                        colls.add(nm)
+                        changed = True
+                    if isinstance(v, ast.Name) and v.id in colls and nm not in colls:
+                        colls.add(nm)
+                        changed = True
+                if isinstance(x, ast.Call) and isinstance(x.func, ast.Attribute) and x.func.attr == "append" and isinstance(x.func.value, ast.Name) \
+                        and len(x.args) == 1 and (is_async(x.args[0]) or (isinstance(x.args[0], ast.Name) and x.args[0].id in singles)) \
+                        and x.func.value.id not in colls:
+                    colls.add(x.func.value.id)
+                    changed = True
+        sites = []      # (node, method, filtered?)
+        for x in ast.walk(w):
+            if isinstance(x, (ast.ListComp, ast.GeneratorExp, ast.SetComp)) and len(x.generators) == 1 \
+                    and isinstance(x.generators[0].iter, ast.Name) and x.generators[0].iter.id in colls and isinstance(x.generators[0].target, ast.Name):
+                v = x.generators[0].target.id
+                for c in ast.walk(x.elt):
+                    if isinstance(c, ast.Call) and isinstance(c.func, ast.Attribute) and isinstance(c.func.value, ast.Name) and c.func.value.id == v:
+                        sites.append((x, c.func.attr, bool(x.generators[0].ifs)))
+            if isinstance(x, ast.For) and isinstance(x.iter, ast.Name) and x.iter.id in colls and isinstance(x.target, ast.Name):
+                v = x.target.id
+                for c in ast.walk(x):
+                    if isinstance(c, ast.Call) and isinstance(c.func, ast.Attribute) and isinstance(c.func.value, ast.Name) and c.func.value.id == v:
+                        early = any(isinstance(y, (ast.Break, ast.Continue, ast.Return)) and y.lineno < c.lineno for y in ast.walk(x))
+                        cond = getattr(c, "_parent", None)
+                        guarded = False
+                        while cond is not None and cond is not x:
+                            if isinstance(cond, (ast.If, ast.IfExp, ast.Try)):
+                                guarded = True
+                            cond = getattr(cond, "_parent", None)
+                        sites.append((x, c.func.attr, early or guarded))
+            if isinstance(x, ast.Call) and isinstance(x.func, ast.Attribute) and (is_async(x.func.value) or (
+                    isinstance(x.func.value, ast.Name) and x.func.value.id in singles)) and x.func.attr in ("wait", "get", "result"):
+                if not colls:
+                    sites.append((x, x.func.attr, False))
+        if not sites:
             n += 1
-            ok = c.elt.func.attr == "wait" and not c.generators[0].ifs
-            res.ob("R-SHARE", "all pool tasks are awaited with wait() (a failing strategy does not abort the others)", run.loc(c), ok=ok,
-                   detail=ast.unparse(c))
+            res.ob("R-SHARE", "pool tasks are awaited inside the `with Pool` block", run.loc(w), ok=False)
+            res.find("R-SHARE", "BacktestManager.run", "pool tasks are not awaited inside `with Pool`", run.loc(w),
+                     "no wait() on the apply_async results inside the `with Pool(...)` block: leaving the block terminates the pool "
+                     "and kills strategies that are still running")
+            continue
+        for node, meth, partial in sites:
+            n += 1
+            ok = meth == "wait" and not partial
+            res.ob("R-SHARE", "all pool tasks are awaited with wait() (a failing strategy does not abort the others)", run.loc(node), ok=ok,
+                   detail=ast.unparse(node)[:120])
             if not ok:
-                res.find("R-SHARE", "BacktestManager.run", f"tasks awaited with `{ast.unparse(c)}`", run.loc(c),
-                         f"`{ast.unparse(c)}`: .get() re-raises a strategy's exception inside `with Pool`, which terminates the pool "
-                         f"and kills the other strategies; every task must be awaited with wait()")
+                what = f"`{ast.unparse(node)[:80]}`"
+                res.find("R-SHARE", "BacktestManager.run", f"tasks awaited with .{meth}()" + (" on some tasks only" if partial else ""), run.loc(node),
+                         f"{what}: .get() re-raises a strategy's exception inside `with Pool`, which terminates the pool and kills the "
+                         f"other strategies; every task must be awaited, unconditionally, with wait()")
     return n
 
 
